@@ -104,7 +104,8 @@ Inductive pc :=
 | PRelWait (x : nat) (rest : list nat)   (* Client.Release: <-h.done *)
 | PDone.
 
-Inductive outcome := ONone | ORet | OPanic | OHandle (h : handle) | ONoSlot | OStruct (ok : bool).
+(* ONoop: a ReleaseClients call that found the clients already released (or other references left) *)
+Inductive outcome := ONone | ORet | ONoop | OPanic | OHandle (h : handle) | ONoSlot | OStruct (ok : bool).
 
 Record thread := {
   t_op : op;
@@ -372,10 +373,10 @@ Definition sec_after_res (c : config) (t : nat) (th : thread) : option config :=
   | OWait =>
     Some (set_thread c t (finish th (OStruct (match cur_res c with RRej => false | _ => true end))))
   | ORelease =>
-    if relflag c then Some (set_thread c t (finish th ORet))
+    if relflag c then Some (set_thread c t (finish th ONoop))
     else
       let rf := crefs c - 1 in
-      if 0 <? rf then Some (set_thread (set_table c (clients c) rf true (proxies c)) t (finish th ORet))
+      if 0 <? rf then Some (set_thread (set_table c (clients c) rf true (proxies c)) t (finish th ONoop))
       else Some (set_thread (set_table c [] rf true (proxies c)) t (goto th (PRel (map snd (clients c)))))
   | _ => None
   end.
